@@ -108,6 +108,14 @@ def run(ctx):
                 ops.append(f'ib.obtain {hexs(body[:-8] + (tl % 2**64).to_bytes(8, "big"))}')
     # keys whose own bytes end with (or contain) the 00 01 02 type suffix, or part of it
     sfx = [hexs(rbytes(rng, 29)) + '000102', hexs(rbytes(rng, 30)) + '0001', hexs(rbytes(rng, 31)) + '00', '000102' + hexs(rbytes(rng, 29)), hexs(rbytes(rng, 26)) + '000102000102', '000102' * 10 + '0001']
+    # a file that is unsigned by the only rule there is (trailing length == file size) although it starts like an integrity block, and the
+    # other pairings of "looks like a block" x "length says so"
+    IBM = bytes.fromhex('f09f968bf09f93a6')
+    for pre in (b'\x84\x48' + IBM, b'\x83\x48' + IBM, b'\x00\x00' + IBM, b'\x84\x48' + IBM[:7] + b'\x00', b'\x84' + IBM):
+        for size in (18, 26, 100, 1000):
+            body = (pre + rbytes(rng, size))[:size - 8] if size - 8 >= len(pre) else pre[:max(0, size - 8)]
+            for tl in (len(body) + 8, len(body) + 9, len(body) + 7, 0):
+                ops.append(f'ib.obtain {hexs(body + tl.to_bytes(8, "big"))}')
     for pk in pks + [hexs(rbytes(rng, 32)) for _ in range(20)] + ['00' * 32, 'ff' * 32] + sfx:
         ops.append(f'ib.id {pk}')
     for n_ in list(range(0, 140)) + [200, 255, 256, 1000]:
